@@ -12,6 +12,7 @@ package main
 import (
 	"fmt"
 	"go/token"
+	"go/types"
 	"sort"
 	"strings"
 
@@ -77,6 +78,7 @@ func runEngineS8(p *Prog, o *obls) {
 		}
 	}
 	o.ok("S8", "inspected", "-", fmt.Sprintf("%d function(s) that handle FullIntraRequest packets", n))
+	s8OncePerPacket(p, o)
 	s9OneMeasurement(p, o)
 }
 
@@ -312,4 +314,78 @@ func s9HistoryLeaves(p *Prog, v ssa.Value, path string, out map[string]bool, see
 			s9HistoryLeaves(p, a, "", out, seen)
 		}
 	}
+}
+
+// S8 (once per packet) — the message counters of the statistics (nackCount, pliCount, firCount: "the total number of
+// … packets", webrtc-stats) count RTCP packets. In a recording function, a `…Count++` on a field of the statistics
+// that is dominated by the type switch over the members of a compound packet sits in no loop that the switch itself
+// is not in: a loop over the packet's entries (a FIR's FCI list, a NACK's pairs) that increments the counter books one
+// packet as many times as it has matching entries.
+func s8OncePerPacket(p *Prog, o *obls) {
+	for _, ss := range statsSpecs {
+		statsStateTypes[ss.state] = true
+	}
+	n := 0
+	for _, ss := range statsSpecs {
+		if p.Fixture != strings.HasPrefix(ss.recorder, "fixtures/") {
+			continue
+		}
+		for _, fn := range p.Funcs {
+			if fn.Blocks == nil || fn.Pkg == nil || relPkg(fn.Pkg.Pkg.Path()) != ss.pkgPath {
+				continue
+			}
+			loops := naturalLoops(fn)
+			if len(loops) == 0 {
+				continue
+			}
+			var bad []string
+			sites := 0
+			instrsOf(fn, func(in ssa.Instruction) {
+				st, ok := in.(*ssa.Store)
+				if !ok || !throughStatsStruct(st.Addr, ss.pkgPath) {
+					return
+				}
+				fa, ok := st.Addr.(*ssa.FieldAddr)
+				if !ok || !strings.HasSuffix(fieldName(fieldKeyAddr(fa)), "Count") {
+					return
+				}
+				bo, ok := st.Val.(*ssa.BinOp)
+				if !ok || bo.Op != token.ADD || !isConstInt(bo.Y, 1) {
+					return
+				}
+				// the switch over the compound's members: the nearest dominating type assertion on an interface value
+				var sw *ssa.BasicBlock
+				for b := st.Block(); b != nil && sw == nil; b = b.Idom() {
+					for _, i2 := range b.Instrs {
+						if ta, ok := i2.(*ssa.TypeAssert); ok {
+							if _, isIface := ta.X.Type().Underlying().(*types.Interface); isIface {
+								sw = b
+							}
+						}
+					}
+				}
+				if sw == nil {
+					return
+				}
+				sites++
+				for _, body := range loops {
+					if body[st.Block()] && !body[sw] {
+						bad = append(bad, fmt.Sprintf("%s is incremented at %s inside a loop over the parts of one packet", describeAddr(p, st.Addr), p.instrPos(st)))
+					}
+				}
+			})
+			if sites == 0 {
+				continue
+			}
+			n++
+			key := funcKey(fn) + ":once-per-packet"
+			if len(bad) > 0 {
+				sort.Strings(bad)
+				o.bad("S8", key, strings.Fields(strings.SplitN(bad[0], " at ", 2)[1])[0], strings.Join(dedupe(bad), "; ")+": the counter is a number of packets (webrtc-stats), a packet with several matching entries is booked several times")
+			} else {
+				o.ok("S8", key, p.Pos(fn.Pos()), fmt.Sprintf("%d message counter(s) advanced under the switch over the compound's members, none in a loop nested in it", sites))
+			}
+		}
+	}
+	o.ok("S8", "once-per-packet-inspected", "-", fmt.Sprintf("%d recording function(s) with message counters", n))
 }
